@@ -21,4 +21,4 @@ Definition c12_sites : list (string * c12_rule) :=
    ("import-unnamed", RPath) (* spec.Path.Pos() *);
    ("defnames", RLookupByName) (* scope.Lookup(name.Name) *);
    ("define-newnames", ROnlyNew) (* scope.Lookup(v.Name) == nil *);
-   ("compositelit-type", RUnguarded) (* unguarded *)].
+   ("compositelit-type", RGuarded) (* guarded *)].
